@@ -90,6 +90,25 @@ _CMP = {
     ast.GtE: ">=",
 }
 
+# Python operators whose C++ token means something else: ``//`` floors and ``%`` takes the
+# sign of the divisor where C++ truncates.  They are emitted as calls of the helper
+# templates ``__redu_floordiv`` / ``__redu_mod`` (see emitter.py), which follow Python.
+_BIN_HELPERS = {ast.FloorDiv: "floordiv", ast.Mod: "mod"}
+
+
+def _emit_binop(opcls: type, left: str, right: str, helpers: Optional[Set[str]]) -> str:
+    """C++ text of ``left <op> right`` with the meaning the operator has in Python."""
+
+    helper = _BIN_HELPERS.get(opcls)
+    if helper is not None:
+        if helpers is not None:
+            helpers.add(helper)
+        return f"__redu_{helper}({left}, {right})"
+    if opcls is ast.Pow:
+        # C++ has no power operator (arguments folded by _eval_const never get here).
+        raise ValueError("the ** operator cannot be translated to C++")
+    return f"({left} {_BIN[opcls]} {right})"
+
 ANALOG_PIN_RE = re.compile(r"^A\d+$")
 
 
@@ -552,7 +571,7 @@ def _to_c_expr(
             )
 
         if isinstance(n, ast.BinOp) and type(n.op) in _BIN:
-            return f"({emit(n.left)} {_BIN[type(n.op)]} {emit(n.right)})"
+            return _emit_binop(type(n.op), emit(n.left), emit(n.right), helper_set)
 
         if isinstance(n, ast.UnaryOp) and type(n.op) in _UN:
             op_token = _UN[type(n.op)]
@@ -1844,8 +1863,7 @@ def _handle_assignment_ast(
     if isinstance(stmt, ast.AugAssign):
         if not isinstance(target, ast.Name):
             return None
-        op_symbol = _BIN.get(type(stmt.op))
-        if op_symbol is None:
+        if type(stmt.op) not in _BIN:
             return None
         rhs_src = line[value.col_offset : value.end_col_offset]
         rhs_c = _to_c_expr(rhs_src, vars_env, ctx)
@@ -1864,7 +1882,9 @@ def _handle_assignment_ast(
         )
         var_types[target.id] = inferred_type
         vars_env[target.id] = _ExprStr(target.id)
-        nodes.append(VarAssign(name=target.id, expr=f"({target.id} {op_symbol} {rhs_c})"))
+        nodes.append(
+            VarAssign(name=target.id, expr=_emit_binop(type(stmt.op), target.id, rhs_c, helpers))
+        )
         return nodes
 
     if isinstance(target, ast.Name):
